@@ -504,7 +504,9 @@ pub fn replay_edge(edge: &Value, prop: &str, rep: &mut Report) {
                 }
                 // "occupies no heap at all": nothing may be allocated for the indices either. Capacity that
                 // a clear() retained is legitimate, so only histories without a reset are judged.
-                let reset = path.iter().any(|o| matches!(opname(o), "clear" | "with_capacity" | "merge_capacity" | "clone_from"));
+                // (merge_capacity over stacks whose indices are dense needs no index heap to absorb them: it is judged;
+                //  with_capacity(n) is an explicit request for index capacity and is left out)
+                let reset = path.iter().any(|o| matches!(opname(o), "clear" | "with_capacity" | "clone_from"));
                 if !reset {
                     let caps: i64 = obs["caps"].as_array().map(|a| a.iter().map(|c| c.as_i64().unwrap_or(0)).sum()).unwrap_or(0);
                     let region_caps = s.region_heap_caps() as i64;
